@@ -287,14 +287,13 @@ def bfvSquare (l : Level) (bskTables : Array NTTTables) (a : Ct) : R Ct := do
   let tool := l.tool
   let qMs := l.qs
   let bskMs := tool.baseBsk.base
-  -- steps (1)–(3), polynomial by polynomial
-  let lifted ← a.polys.toList.mapM fun p => do
-    let q : RnsPoly := Array.ofFn (n := qMs.size) fun i => nttLazy (l.tbl i.val) (p.getD i.val #[])
+  -- steps (1)–(3): in the code polynomial by polynomial (base q: lazy NTT - pure -; base Bsk: extend, Montgomery-reduce, lazy NTT); the same
+  -- values, and the same first failure, as the batch form of `bfvMultiply`
+  let aq := a.polys.toList.map fun p => Array.ofFn (n := qMs.size) fun i => nttLazy (l.tbl i.val) (p.getD i.val #[])
+  let ab ← a.polys.toList.mapM fun p => do
     let ext ← tool.fastbconvMTilde p
     let red ← tool.smMrq ext
-    let b : RnsPoly := Array.ofFn (n := bskMs.size) fun i => nttLazy (bskTables.getD i.val default) (red.getD i.val #[])
-    pure (q, b)
-  let aq := lifted.map (·.1); let ab := lifted.map (·.2)
+    pure (Array.ofFn (n := bskMs.size) fun i => nttLazy (bskTables.getD i.val default) (red.getD i.val #[]))
   -- step (4): the square in both bases
   let sq (ms : Array Modulus) (xs : List RnsPoly) : R (List RnsPoly) := do
     let x0 := xs.getD 0 #[]; let x1 := xs.getD 1 #[]
